@@ -10,7 +10,7 @@ import json
 from fractions import Fraction
 
 from ..core import Engine, stream, BuildError, digest
-from ..build import World, render
+from ..build import subtype_of, World, render
 from ..gen import ExprGen, gen_types, gen_fluents
 from ..inject import LineFault
 
@@ -239,6 +239,81 @@ def nf(d, world, ordered=False):
     if k == "bool":
         return ("bool", d[1])
     raise BuildError(f"no normal form for {d!r}")
+
+
+def nf_kind(n, world):
+    """Kind of a normal form under the harness's own typing rules: ("bool",), ("num",), ("obj", type name) --
+    or None when the expression is ill-typed OR the rules cannot tell.  Used to decide from the DATA (not from the
+    generator's flag, which a minimised script no longer deserves) whether a construction has to succeed."""
+    k = n[0]
+    if k == "bool":
+        return ("bool",)
+    if k in ("int", "real"):
+        return ("num",)
+    if k == "o":
+        t = next((ot for o, ot in world["objects"] if o == n[1]), None)
+        return None if t is None else ("obj", t)
+    if k in ("p", "v"):
+        rt = n[2]
+        return ("bool",) if rt[0] == "bool" else ("num",) if rt[0] in ("int", "real") else ("obj", rt[1])
+    sub = [nf_kind(a, world) for a in n[1:]] if k not in ("exists", "forall", "f") else None
+    if k in ("and", "or", "not", "implies", "iff"):
+        return ("bool",) if sub and all(x == ("bool",) for x in sub) else None
+    if k in ("le", "lt"):
+        return ("bool",) if len(sub) == 2 and all(x == ("num",) for x in sub) else None
+    if k in ("plus", "times", "minus", "div"):
+        if not sub or any(x != ("num",) for x in sub):
+            return None
+        if k == "div" and n[2][0] in ("int", "real") and Fraction(n[2][1]) == 0:
+            return None
+        return ("num",)
+    if k == "equals":
+        if len(sub) != 2 or None in sub:
+            return None
+        a, b = sub
+        if a == ("num",) and b == ("num",):
+            return ("bool",)
+        if a[0] == "obj" and b[0] == "obj":
+            tmap = dict(world["types"])
+            return ("bool",) if subtype_of(tmap, a[1], b[1]) or subtype_of(tmap, b[1], a[1]) else None
+        return None
+    if k in ("exists", "forall"):
+        return ("bool",) if n[1] and nf_kind(n[2], world) == ("bool",) else None
+    if k == "f":
+        fd = next((f for f in world["fluents"] if f["name"] == n[1]), None)
+        if fd is None or len(fd["params"]) != len(n) - 2:
+            return None
+        tmap = dict(world["types"])
+        for (_, pt), a in zip(fd["params"], n[2:]):
+            ka = nf_kind(a, world)
+            if ka is None:
+                return None
+            if pt[0] == "user":
+                if ka[0] != "obj" or not subtype_of(tmap, ka[1], pt[1]):
+                    return None
+            elif pt[0] == "bool":
+                if ka != ("bool",):
+                    return None
+            elif ka != ("num",):
+                return None
+        t = fd["type"]
+        return ("bool",) if t[0] == "bool" else ("num",) if t[0] in ("int", "real") else ("obj", t[1])
+    return None
+
+
+def negations_typed(d, world):
+    """nf() folds a double negation away, operand included: the operand of every negation in the raw
+    descriptor must be Boolean on its own."""
+    if not isinstance(d, list) or not d or not isinstance(d[0], str):
+        return True
+    operand = d[1] if d[0] in ("not", "inv") else d[2] if d[0] == "meth" and d[1] == "Not" else None
+    if operand is not None and isinstance(operand, list):
+        try:
+            if nf_kind(nf(operand, world, ordered=True), world) != ("bool",):
+                return False
+        except Exception:
+            return False
+    return all(negations_typed(c, world) for c in d[1:] if isinstance(c, list))
 
 
 def ordered_key(d, world):
@@ -576,7 +651,14 @@ class ConsHist(Engine):
             ctx.ev(i, d[0], digest(d), "->", exc or "ok", "fired" if fired else "")
             ctx.outcome(d[0], exc or "ok")
             if exc is not None:
-                if not op.get("ill") and not fired:
+                try:
+                    typed = nf_kind(nf(d, world, ordered=True), world) is not None and negations_typed(d, world)
+                except Exception:
+                    typed = False
+                if not op.get("ill") and not typed:
+                    # a script edited by the minimiser: the flag says well-typed, the data do not
+                    ctx.probe("flagged-well-typed-but-not-derivable")
+                if not op.get("ill") and not fired and typed:
                     # a well-typed construction must not fail on its own
                     ctx.fail("C16.constructs", f"op {i}: construction {json.dumps(d)[:300]} raised {exc}", cls=exc)
                 else:
